@@ -183,6 +183,22 @@ def decorrelated_jitter(base_s: float = 0.25, max_s: float = 30.0) -> StrategyFn
     return f
 
 
+def _exponential_cap(base_s: float, max_s: float, growth: float, attempt: int) -> float:
+    """min(max_s, base_s * growth**attempt) without overflowing for large attempts."""
+    try:
+        return min(max_s, base_s * (growth**attempt))
+    except OverflowError:
+        pass
+    # growth**attempt is outside the float range: scale in steps and stop at max_s.
+    scaled = base_s
+    remaining = attempt
+    while remaining > 0 and 0.0 < scaled < max_s:
+        step = min(remaining, 512)
+        scaled *= growth**step
+        remaining -= step
+    return min(max_s, scaled)
+
+
 def equal_jitter(base_s: float = 0.25, max_s: float = 30.0) -> StrategyFn:
     """
     Equal-jitter exponential backoff.
@@ -192,7 +208,7 @@ def equal_jitter(base_s: float = 0.25, max_s: float = 30.0) -> StrategyFn:
     """
 
     def f(attempt: int, klass: ErrorClass, prev_sleep: float | None) -> float:
-        cap = min(max_s, base_s * (2.0**attempt))
+        cap = _exponential_cap(base_s, max_s, 2.0, attempt)
         return cap / 2.0 + random.uniform(0.0, cap / 2.0)
 
     return f
@@ -207,7 +223,7 @@ def token_backoff(base_s: float = 0.25, max_s: float = 20.0) -> StrategyFn:
     """
 
     def f(attempt: int, klass: ErrorClass, prev_sleep: float | None) -> float:
-        cap = min(max_s, base_s * (1.5**attempt))
+        cap = _exponential_cap(base_s, max_s, 1.5, attempt)
         return random.uniform(cap / 2.0, cap)
 
     return f
